@@ -123,6 +123,25 @@ func runC20(w *World, c *Check) {
 	if nEnc == 0 {
 		c.Fail("C20.encoders", "module", "encoders", "-", "the diagnostic JSON/gob encoders exist", "no json/gob encoder call found")
 	}
+	// values held behind interface{} (credential attributes) are encoded by gob only for registered
+	// concrete types: registering a key-bearing type is what lets a key stored there be encoded
+	for _, fn := range w.ModuleFuncs() {
+		if strings.HasSuffix(fn.Pkg.Pkg.Path(), "/examples") {
+			continue
+		}
+		fa := NewFuncAn(w, fn)
+		for _, ci := range fa.Calls(`encoding/gob\.(Register|RegisterName)`) {
+			args := ci.Common().Args
+			arg := args[len(args)-1]
+			t := arg.Type()
+			if mi, ok := arg.(*ssa.MakeInterface); ok {
+				t = mi.X.Type()
+			}
+			reach := cfg.jsonReach(t, shortType(t), 0, map[types.Type]bool{}, true)
+			c.Decide(len(reach) == 0, "C20.encoders", FuncKey(fn), "gob.Register("+shortType(t)+")", w.Pos(InstrPos(ci)),
+				"no type registered with gob for interface-typed values exposes a key or password field", fmt.Sprintf("the registered type reaches %v: a value of it kept in an interface-typed field (credential attributes) is written out by Credentials.Marshal", reach))
+		}
+	}
 
 	ruleWireAudit(w, c, "C20.wire")
 }
